@@ -537,6 +537,11 @@ def param_text(t):
     return '###'.join(reprs) if reprs else None
 
 
+def unread(t, i):
+    """A declared input the run body never asks for: part of the key, not of the value, and not computed on demand."""
+    return t.spec['style'] == 'index' and i['idx'] in (t.spec.get('unread') or ())
+
+
 def compute_key_value(tasks, n, parameter_mode=True):
     t = tasks[n]
     if t.key is not None:
@@ -561,7 +566,7 @@ def compute_key_value(tasks, n, parameter_mode=True):
     if t.spec['style'] == 'all':
         iv = sorted(((i['key'].split('::')[-1], _iv(i)) for i in present), key=lambda kv: (kv[0], str(kv[1])))
     else:
-        iv = [(i['idx'], _iv(i)) for i in present]
+        iv = [(i['idx'], _iv(i)) for i in present if not unread(t, i)]
     t.value = provenance(t.slug, pv, iv)
     # descriptor: what goes into the computation, in placeholder form (C02/C03) - independent of the key text
     dparams = []
